@@ -3,6 +3,7 @@
 package props
 
 import (
+	"github.com/ElrondNetwork/elrond-vm-common/data/esdt"
 	"math/big"
 
 	vmcommon "github.com/ElrondNetwork/elrond-vm-common"
@@ -133,6 +134,53 @@ func logsEq(a, b []world.Write) bool {
 // the whole input object graph, spare capacity included) nor into the function object, and a
 // repeated execution on the reset world with the same function object yields identical
 // results and an identical write log.
+func init() {
+	reg("C13_NFTTransferDestAnyPayload", C13_NFTTransferDestAnyPayload)
+	reg("C13_MultiTransferDestAnyPayload", C13_MultiTransferDestAnyPayload)
+}
+
+// C13_NFTTransferDestAnyPayload: the arrival leg of ESDTNFTTransfer with a payload that is not a
+// sender side's encoding (the codec decodes it to an entry without a quantity,
+// without metadata or without both): whatever the call makes of it, it leaves its
+// input, the function object and the package-level state alone and repeats identically.
+func C13_NFTTransferDestAnyPayload() {
+	s := scnNFTTransfer(Opt{Small: true, Thin: true, NoRAE: true, FixedCaller: true, GasEnough: true, Side: 2, NoCall: true})
+	s.In.Arguments[3] = partialPayload(s)
+	untouchedCheck(s)
+}
+
+// partialPayload is a well-formed encoding of an entry that lacks its quantity, its metadata or
+// both - what a sender side never emits but the decoder accepts.
+func partialPayload(s *Scn) []byte {
+	t := &esdt.ESDigitalToken{Type: uint32(vmcommon.NonFungible)}
+	hasValue, hasMeta := verif.Bool("payload.has.value"), verif.Bool("payload.has.meta")
+	verif.Assume(!(hasValue && hasMeta))
+	if hasValue {
+		t.Value = verif.Int("payload.value")
+	}
+	if hasMeta {
+		t.TokenMetaData = &esdt.MetaData{Nonce: nonceOf(s.In.Arguments[1]), Name: verif.Bytes("payload.name", 1), Hash: verif.Bytes("payload.hash", 1)}
+	}
+	return s.W.Codec.Pack(t)
+}
+
+// untouchedCheck is the write-monitor half of purityCheck (one run): the decode of bytes the codec
+// has never produced is modelled as an arbitrary choice, so a second run is not comparable.
+func untouchedCheck(s *Scn) {
+	verif.WatchWrites(s.In, "input")
+	verif.WatchObject(s.Fn, "function-object")
+	s.Run()
+	verif.WatchOn(false)
+	verif.Reach("ran", true)
+	verif.ObserveBool("ok", s.Err == nil)
+}
+
+func C13_MultiTransferDestAnyPayload() {
+	s := scnMultiTransfer(Opt{Small: true, Thin: true, NoRAE: true, FixedCaller: true, GasEnough: true, Side: 2, NoCall: true, MultiK: 1})
+	s.In.Arguments[3] = partialPayload(s)
+	untouchedCheck(s)
+}
+
 func purityCheck(s *Scn) {
 	// inputs with spare capacity and shared backing arrays
 	args := s.In.Arguments
